@@ -120,6 +120,29 @@ reg(
     "DESIGN.md 4.4 C17",
 )
 
+reg(
+    "C13",
+    "Every program with <= 3 (thorough 4) data-movement / compute ops over three shared buffers (all operand choices; buffer c also as a local allocation "
+    "with trailing dealloc, through one subview alias, or through two different subview aliases), with pre-existing barriers, straight-line and in loops, goes "
+    "through the real insert-sync-barrier and dispatch-regions. The output is interpreted once per core id to get per-core event lists; an explicit-state "
+    "BFS then explores ALL interleavings of whole ops between barriers for every trip-count vector. Any deadlock (a barrier some core never reaches), any "
+    "reachable outcome whose per-op observed inputs or final buffer contents differ from the sequential reference, and any access to a buffer another core "
+    "already deallocated is a violation.",
+    "Trusted: machines/cores.py (whole-op atomicity, barrier = all cores), machines/memview.py (subview aliasing by buffer identity). Buffers are whole objects; element-granular overlap is not modelled.",
+    "explicit-state model checking of all core interleavings between barriers, on event lists produced by the real passes, against a sequential reference",
+    "DESIGN.md 4.4 C13",
+)
+reg(
+    "C14",
+    "Every program with <= 5 nodes over {DM copy, linalg.generic, dart streaming region, test.op on induction variables, barrier} nested in scf.for / scf.if "
+    "(with and without else), depth <= 2, goes through the real dispatch-regions for 2 and 3 (thorough 4) cores and then the upstream "
+    "function-constant-pinning. For every core id, trip-count vector and branch outcome the executed tagged-op trace must equal the original trace filtered "
+    "by {DM -> core n-1, compute -> core 0, other -> all}, also after pinning.",
+    "Trusted: machines/ir.py incl. execution of internal func.call. Multi-block (cf.br) functions are not generated.",
+    "bounded-exhaustive program x core id x run-time input enumeration, trace equality against the filtered original",
+    "DESIGN.md 4.4 C14",
+)
+
 NOT_APPLICABLE = []
 
 ALL = [f"C{i:02d}" for i in range(1, 21)]
